@@ -10,6 +10,7 @@ package couchbase
 //@ modifies nothing
 
 //@ func (*cbMembership).isAlive
+//@ params h heartbeatTime
 //@ props C10
 //@ requires h != nil && h.membershipConfig != nil && logger.Log != nil
 //@ let now = dret("time.(Time).UnixNano", 0, 0)
@@ -17,6 +18,7 @@ package couchbase
 //@ modifies calls("time.(Time).UnixNano")
 
 //@ func (*cbMembership).isClusterChanged
+//@ params h currentActiveInstances
 //@ props C10
 //@ requires h != nil && (forall j int :: 0 <= j && j < len(h.lastActiveInstances) ==> h.lastActiveInstances[j].ID != nil) && (forall j int :: 0 <= j && j < len(currentActiveInstances) ==> currentActiveInstances[j].ID != nil)
 //@ let n = len(h.lastActiveInstances)
@@ -29,6 +31,7 @@ package couchbase
 //@ modifies nothing
 
 //@ func (*cbMembership).rebalance
+//@ params h instances
 //@ props C10
 //@ requires h != nil && h.bus != nil && logger.Log != nil && len(instances) <= 9223372036854775806 && (forall j int :: 0 <= j && j < len(instances) ==> instances[j].ID != nil)
 //@ let self = str(h.id)
